@@ -393,14 +393,55 @@ func vm_ioCopy(dst io.Writer, src io.Reader) (int64, error) {
 	}
 }
 
-// identity flate stream (decompression correctness is assumed, DESIGN §2.5)
-type vmFlateReader struct{ r io.Reader }
+// flate reader model: the stream is the framing the writer model emits — chunks [hi lo data...] ended by
+// [0 0]; like DEFLATE it is self-delimiting (bytes after the terminator are not looked at) and a stream that
+// ends early is an unexpected EOF (decompression correctness itself is assumed, DESIGN §2.5)
+type vmFlateReader struct {
+	r    io.Reader
+	left int
+	done bool
+}
 
-func (f *vmFlateReader) Read(p []byte) (int, error) { return f.r.Read(p) }
-func (f *vmFlateReader) Close() error               { return nil }
+func (f *vmFlateReader) Read(p []byte) (int, error) {
+	var one [1]byte
+	n := 0
+	for n < len(p) {
+		if f.done {
+			break
+		}
+		if f.left == 0 {
+			var hd [2]byte
+			if _, err := io.ReadFull(f.r, hd[:]); err != nil {
+				if n > 0 {
+					return n, nil
+				}
+				return 0, io.ErrUnexpectedEOF
+			}
+			f.left = int(hd[0])*256 + int(hd[1])
+			if f.left == 0 {
+				f.done = true
+				break
+			}
+		}
+		if m, _ := f.r.Read(one[:]); m == 0 {
+			if n > 0 {
+				return n, nil
+			}
+			return 0, io.ErrUnexpectedEOF
+		}
+		p[n] = one[0]
+		n++
+		f.left--
+	}
+	if n == 0 && f.done && len(p) > 0 {
+		return 0, io.EOF
+	}
+	return n, nil
+}
+func (f *vmFlateReader) Close() error { return nil }
 
 //verif:model compress/flate.NewReader
-func vm_flateNewReader(r io.Reader) io.ReadCloser { return &vmFlateReader{r} }
+func vm_flateNewReader(r io.Reader) io.ReadCloser { return &vmFlateReader{r: r} }
 
 //verif:intrinsic
 func vFSNoDir(name string) {}
